@@ -289,6 +289,28 @@ def gen_follow_context_candidate(rng, terms, start='E'):
     return dict(items)
 
 
+def gen_epsilon_only_grammar(rng, terms, start='E'):
+    """LL(1) grammars with a symbol that derives the empty string and nothing else (a placeholder of the grammar
+    author): in front of a token inside a production that is reached through another symbol, or behind an optional
+    symbol"""
+    x, y, z = rng.sample(terms, 3)
+    names = rng.sample([nm for nm in NT_NAMES if nm != start], 4)
+    a, n, m, b = names
+    eps = {n: [()]} if rng.random() < 0.5 else {n: [(m,), ()][:rng.randint(1, 2)], m: [()]}
+    if rng.random() < 0.5:
+        # E -> A y | z ;  A -> N x
+        prods = {start: [(a, y), (z,)], a: [(n, x)] if rng.random() < 0.6 else [(n, n, x)]}
+    else:
+        # E -> B N x | y ;  B -> z | e
+        prods = {start: [(b, n, x), (y,)], b: [(z,), ()]}
+    prods.update(eps)
+    for alts in prods.values():
+        rng.shuffle(alts)
+    items = list(prods.items())
+    rng.shuffle(items)
+    return dict(items)
+
+
 def gen_follow_ring_grammar(rng, terms):
     """LL(1) grammar whose FOLLOW sets depend on each other in a RING of 3-6 optional symbols:
     E -> t N0 end;  Ni -> ti N(i+1) | e;  the last one refers to N0 again. What may follow one of them may follow all"""
